@@ -64,6 +64,7 @@ var piecesCore = []string{
 }
 
 var piecesWild = []string{
+	"\ufeff", "\ufeff# h", "\n\n\ufeff", "[a](<b\\\nc>)", "[r]: <b\\\nc>\n",
 	"\t", "\t\t", " \t", "\t ", "-\t", "1.\t", ">\t", "\ta", "  \ta", "\r", "\r\n", "\r\n\r\n", "a\r", "a\r\nb", "\r\r",
 	"\x00", "\x00\x00", "a\x00b", "\xff", "\xc3", "\xe2\x82", "\xf0\x9f", "\x80", "\xed\xa0\x80", "\xef\xbf\xbd",
 	"\x01", "\x7f", "\x1b",
@@ -337,6 +338,22 @@ func docStream(seed uint64, family string, n int, wild bool, f func(idx int, kin
 // upper-case names and several lines, maximum-length numeric references, breaks in all spellings; then a random
 // line-ending style, an optional container and an optional missing final newline.
 var richLabels = []string{"foo", "ba\nr", "ba r", "C:\\a", "v\\2", "foo\\ ", "a  b", "Foo", "ẞ", "x\\]y", "logo", "ref"}
+// longLabel: a legal label of about n characters wrapped over lines of w letters.
+func longLabel(n, w int) string {
+	var sb strings.Builder
+	for sb.Len() < n {
+		if sb.Len() > 0 {
+			sb.WriteByte('\n')
+		}
+		k := w
+		if n-sb.Len() < w {
+			k = n - sb.Len()
+		}
+		sb.WriteString(strings.Repeat("l", k))
+	}
+	return sb.String()
+}
+
 var richText = []string{"a", "foo", "bar", "C:\\a", "x\\", "é", "$", "+", "~", "a$", " ", " ", ".", "!", "\\*", "1", "see"}
 var richRaw = []string{"<?php\necho 1 ><script>alert(1)</script> ?>", "<![CDATA[\ny><xmp>z]]>", "<a\ntitle=\"<script>\">", "<!-- a\n><style> -->", "<!X\ny><title>>", "<b>", "</b>", "<DIV>", "<XMP>", "</XMP>", "<Script>", "<a\nhref=\"x\">", "<img\nsrc=\"y.png\"\nalt=\"z\"/>", "<!-- c\nd -->", "<?p\nq?>", "<a href='>'>", "<http://example.com/>", "<a@b.cc>"}
 var richEnt = []string{"&amp;", "&#x01F600;", "&#0128512;", "&#x10FFFD;", "&#32;", "&nbsp;", "&#1234567;", "&#x1234567;", "&copy;"}
@@ -366,7 +383,7 @@ func genInline(r *Rng, depth int) string {
 		}
 		return d + inner() + c
 	case 4:
-		return "[" + inner() + "](" + r.Pick([]string{"/u", "</u v>", "/a\\_b", "", "/u 't'", "/u \"ti\ntle\"", "/u&#0000097; \"t &#0000098;\"", "<%4\"x>"}) + ")"
+		return "[" + inner() + "](" + r.Pick([]string{"/u", "</u v>", "/a\\_b", "", "/u 't'", "/u \"ti\ntle\"", "/u&#0000097; \"t &#0000098;\"", "<%4\"x>", "<b\\\nc>", "<b\nc>"}) + ")"
 	case 5:
 		return "![" + inner() + "](" + r.Pick([]string{"/i", "/i 'alt \\'x\\''", "</p q&amp;r>"}) + ")"
 	case 6:
@@ -391,6 +408,30 @@ func genInline(r *Rng, depth int) string {
 }
 
 func genInlineRich(r *Rng, wild bool) []byte {
+	if r.Intn(40) == 0 {
+		// a label close to the 999-character limit, wrapped over many lines, defined at top level and used (shortcut,
+		// collapsed, full) at top level and inside nested containers
+		n := []int{869, 960, 989, 998, 999, 1000}[r.Intn(6)]
+		l := longLabel(n, 20+r.Intn(80))
+		use := []string{"[" + l + "]", "[" + l + "][]", "![x][" + l + "]", "[t][" + l + "]"}[r.Intn(4)]
+		pre := []string{"", "> ", "> > > ", "- ", "1. > "}[r.Intn(5)]
+		cont := map[string]string{"": "", "> ": "> ", "> > > ": "> > > ", "- ": "  ", "1. > ": "   > "}[pre]
+		return []byte("[" + l + "]: /url\n\n" + string(prefixLines([]byte(use+"\n"), pre, cont)))
+	}
+	if r.Intn(40) == 0 {
+		// wide trees: many inline children / list items / root blocks (explicit stacks grow past their first allocation)
+		k := 30 + r.Intn(120)
+		switch r.Intn(4) {
+		case 0:
+			return []byte(strings.Repeat("x *y*\n", k))
+		case 1:
+			return []byte(strings.Repeat("- x\n", k))
+		case 2:
+			return []byte(strings.Repeat("p\n\n", k))
+		default:
+			return []byte("> " + strings.Repeat("a `b` [c](/d) ", k) + "\n")
+		}
+	}
 	def := func() string {
 		l := r.Pick(richLabels)
 		if r.Intn(6) == 0 {
